@@ -324,6 +324,18 @@ def icg_cases(ctx):
             add(n, arbitrary_int_table(rng, n), "arbitrary-int(not SA, v(0)!=0)", "exact", oracle=False)
             sam = games.sam_game(rng, n, rng.choice(["int", "dyadic"]))
             add(n, sam, "sam-" + ("int" if isinstance(sam[-1], int) else "dyadic"), "exact")
+            if n >= 2:
+                # singleton values of both signs that cancel exactly (their sum is 0 although none of them is)
+                half = [rng.randint(1, 6) for _ in range(n // 2)]
+                singles = half + [-x for x in half] + ([0] if n % 2 else [])
+                rng.shuffle(singles)
+                cv = [0] * (2 ** n)
+                for c_ in games.ids_by_size(n):
+                    if games.popcount(c_) == 1:
+                        cv[c_] = singles[c_.bit_length() - 1]
+                    elif c_:
+                        cv[c_] = max(cv[a_] + cv[c_ ^ a_] for a_ in games.proper_splits(c_)) + rng.choice([0, 1, 2, 3])
+                add(n, cv, "cancelling-singletons-int", "exact")
             if n >= 3:
                 # one huge and several small singletons (all values even integers below 2^54, exactly representable; every
                 # subtraction of a singleton is exact): the surplus must come from the table, not from a re-summation
